@@ -3,3 +3,5 @@
 fn __o_then_some<T>(c: bool, x: T) -> (r: Option<T>) ensures r == (if c { Some(x) } else { None::<T> }) { c.then_some(x) }
 // length of `s[a..b]` (std panics unless a <= b <= len: that is the precondition)
 fn __o_slice_range_len(len: usize, a: usize, b: usize) -> (r: usize) requires a <= b <= len ensures r == b - a { b - a }
+// `zip` stops at the shorter source (verified helper, not assumed)
+fn __o_min_len(a: usize, b: usize) -> (r: usize) ensures r == (if a <= b { a } else { b }) { if a <= b { a } else { b } }
